@@ -331,7 +331,7 @@ def ball_cases(tier, seed):
     for D in (4, 6, 9) if tier == "quick" else (4, 6, 8, 9, 12, 16):
         for direction in ("diag", "offdiag", "generic", "eig"):
             for rel in (0.5, 0.9, 1.0 + 1e-6, 1.0 + 1e-4, 1.1, 2.0):  # 1+1e-6 / 1+1e-4: just outside (after seeded change C15-5: isclose at the boundary)
-                for scale in (1.0, 2.5):
+                for scale in (1.0, 2.5, -1.0, -2.5):  # negative multiples are not in the ball (added after seeded change C15-16: abs of the trace)
                     for form in ("matrix", "eigvec"):
                         if form == "eigvec" and direction in ("offdiag", "generic"):
                             continue
@@ -361,9 +361,9 @@ def ball_check(case):
     got, exc = call(in_separable_ball, arg)
     if exc is not None:
         return viol("in_separable_ball raised: " + exc_text(exc), site="in_separable_ball:exception")
-    inside = case["rel"] <= 1.0
+    inside = case["rel"] <= 1.0 and case["scale"] > 0
     if bool(got) and not inside:
-        return viol(f"operator at {case['rel']} x the Gurvits-Barnum radius accepted", site="in_separable_ball:outside_accepted",
+        return viol(f"operator at {case['rel']} x the Gurvits-Barnum radius (scale {case['scale']}) accepted", site="in_separable_ball:outside_accepted",
                     observed=True, expected=False)
     return ok(True, obs=bool(got), accepted_inside=bool(got) and inside)
 
